@@ -441,6 +441,38 @@ fn escape_then_error_cases(ctx: &Ctx) -> Vec<(Case, bool)> {
     out
 }
 
+// Inputs beyond the small scope whose fate is known: long tokens, long lines,
+// deep nesting, many statements.
+fn large_inputs(ctx: &Ctx) -> Vec<(Case, bool)> {
+    let mut out = vec![];
+    let mut push = |src: String, expect: &str, min_line: u32, note: &str| {
+        ctx.label("large input");
+        out.push((front_case("large", src.into_bytes(), expect, min_line, note), true));
+    };
+    for n in [31usize, 64, 65, 127, 128, 255, 256, 257, 1000, 5000] {
+        let id: String = std::iter::repeat("ab_9").take(n / 4 + 1).collect::<String>()[..n].to_string();
+        push(format!("{id} := 1\nprint({id})\n"), "any", 0, "long identifier");
+        push(format!("{id} := 1\nprint({id}) @\n"), "reject", 2, "long identifier, then an illegal character");
+        let digits: String = "1234567890".repeat(n / 10 + 1)[..n].to_string();
+        push(format!("print(1)\nx := {digits}\n"), if n <= 18 { "any" } else { "reject" }, if n <= 18 { 0 } else { 2 }, "long integer literal");
+        let zeros = "0".repeat(n);
+        push(format!("x := {zeros}7\nprint(x) )\n"), "reject", 2, "many leading zeros, then a stray parenthesis");
+        let text = "é日a ".repeat(n / 4 + 1);
+        push(format!("s := \"{text}\"\nprint(s->len()) ]\n"), "reject", 2, "long multi-byte string literal, then a stray bracket");
+        push(format!("# {text}\nprint(1) }}\n"), "reject", 2, "long multi-byte comment, then a stray brace");
+        push(format!("print({}1{})\n", "(".repeat(n.min(120)), ")".repeat(n.min(120))), "any", 0, "deep parentheses");
+        push(format!("print({}1{})\n", "(".repeat(n.min(120)), ")".repeat(n.min(120) - 1)), "reject", 1, "deep parentheses, one missing");
+        push(format!("x := {}{}\nprint(1) @\n", "[".repeat(n.min(100)), "]".repeat(n.min(100))), "reject", 2, "deep brackets, then an illegal character");
+        let stmts: String = (0..n.min(600)).map(|k| format!("v{k} := {k}; ")).collect();
+        push(format!("{stmts}\nprint(v0) print(v1)\n"), "reject", 2, "one very long line of statements, then two statements without a terminator");
+        let lines: String = (0..n.min(800)).map(|k| format!("w{k} := {k}\n")).collect();
+        push(format!("{lines}w0 = = 1\n"), "reject", n.min(800) as u32 + 1, "many lines, error on the last");
+        let spaces = " ".repeat(n);
+        push(format!("x :={spaces}1{spaces}+{spaces}\n\n\n{spaces}2\nprint(x){spaces}@\n"), "reject", 5, "very wide blanks, continuation over blank lines");
+    }
+    out
+}
+
 pub fn run(ctx: &Ctx) {
     ctx.set_rule("all strings of length <= 3 over a 50-symbol alphabet of Seed punctuation / keywords / escapes / multi-byte and control characters (exhaustive), random Unicode strings, token-level mutations (delete, duplicate, swap, replace, glue a multi-byte character, control characters) and truncations of the repository's 336 test scripts and of generated programs, unterminated strings / escapes / slots at EOF, invalid UTF-8 inside comments / strings / anywhere, valid printing prefix + broken tail; oracle: never a crash or hang; a front-end rejection has empty stdout, exit 103, exactly one `<path>:<line>:<col>: <message>` with 1 <= line <= lines+1 (and within the broken tail); non-UTF-8 is a read error. Non-trivial = the input is rejected, or was mutated / contains multi-byte or control characters next to tokens; distinct = distinct inputs");
     ctx.replay_corpus(Some(&custom));
@@ -481,6 +513,7 @@ pub fn run(ctx: &Ctx) {
     });
     ctx.judge_all(illegal_char_cases(ctx, &corp, &offs, ctx.n(2_000, 60_000)), Via::Cli, Some(&custom));
     ctx.judge_all(escape_then_error_cases(ctx), Via::Cli, Some(&custom));
+    ctx.judge_all(large_inputs(ctx), Via::Cli, Some(&custom));
     // Every-offset truncation of a few programs, through the binary.
     let mut cases = vec![];
     for (k, s) in corp.iter().enumerate().filter(|(k, _)| k % 29 == 0).take(if ctx.tier == Tier::Quick { 8 } else { 60 }) {
